@@ -405,8 +405,10 @@ impl EventGen for ReuseElement {
 //@ replace[R-ctor] <<<Position::from(&reuse_element)>>> => <<<position_from(&reuse_element)>>>
 //@ cut[R-abstract] <<<                let own = Position::from(&instance_element);>>> .. <<<                    pos.dy = own.dy;\n                }>>> => <<<                pos.keep_unpositioned_axes_of(&instance_element);>>>
 //@ replace[R-abstract] <<<            let mut new_events = InputList::new();\n            let tag_name = instance_element.name.clone();\n            let mut start_ev = InputEvent::from(OutputEvent::Start(instance_element));\n            start_ev.index = start;\n            start_ev.alt_idx = Some(end);\n            new_events.push(start_ev);\n            new_events.extend(&InputList::from(&context.events[start + 1..end]));\n            let mut end_ev = InputEvent::from(OutputEvent::End(tag_name));\n            end_ev.index = end;\n            end_ev.alt_idx = Some(start);\n            new_events.push(end_ev);\n            process_events(new_events, context)>>> => <<<            let new_events = instance_events(instance_element, start, end, context);\n            process_events(new_events, context)>>>
-//@ before <<<instance_element.expand_compound_size();>>>
-//@ | assert(scoping_name(instance_element.name@) ==> exists|raw: SvgElement| #[trigger] evaluated_from(raw, instance_element) && scope_vars_bounded(raw, instance_element, context.config.var_limit as nat)); // the attributes of a group / symbol / reuse instance become variables of what it contains or instantiates: bounded like any other scope variable (a symbol turns into a g a few lines further down; a reuse pushes them itself, but then sees them already evaluated) @C17.scope.group_instance_vars_bounded @C01.scope.group_instance_vars_bounded
+//@ before <<<if scoping {>>>
+//@ | assert(scoping == scoping_name(instance_element.name@)); // every g / symbol / reuse instance takes the bounded route @C17.scope.group_instance_vars_bounded @C01.scope.group_instance_vars_bounded
+//@ before <<<let instance_size = if instance_element.name == "reuse" {>>>
+//@ | assert(scoping ==> evaluated_from(template, instance_element) && scope_vars_bounded(template, instance_element, context.config.var_limit as nat)); // the attributes of a group / symbol / reuse instance become variables of what it contains or instantiates: bounded like any other scope variable (a symbol turns into a g a few lines further down; a reuse pushes them itself, but then sees them already evaluated) @C17.scope.group_instance_vars_bounded @C01.scope.group_instance_vars_bounded
 //@ before <<<instance_element.generate_events(context)>>>
 //@ | assert(defaulted(instance_element)); // a single-element instance is a leaf like the hand-written one: the defaults in force apply to it @C18.instance.defaults_applied
 //@ ensures
